@@ -90,6 +90,28 @@ def grep_forbidden():
 
 ALLOWED_AXIOMS = set()  # axioms a property theorem may depend on (none)
 
+_SRC_HASH = None
+
+
+def sources_hash():
+    """sha256 over the contents of every .v file of the development and of _CoqProject"""
+    global _SRC_HASH
+    if _SRC_HASH is None:
+        h = hashlib.sha256()
+        files = []
+        for d, _, fs in os.walk(COQ):
+            for f in fs:
+                if f.endswith(".v") or f == "_CoqProject":
+                    files.append(os.path.join(d, f))
+        for p in sorted(files):
+            h.update(os.path.relpath(p, COQ).encode())
+            h.update(b"\0")
+            with open(p, "rb") as fh:
+                h.update(fh.read())
+            h.update(b"\0")
+        _SRC_HASH = h.hexdigest()[:24]
+    return _SRC_HASH
+
 
 def check_props_file(pid):
     """Re-check coq/Props/<pid>.v with the kernel, verify pinned statements and Print Assumptions.
@@ -120,11 +142,34 @@ def check_props_file(pid):
     res["stmts"] = stmts
     if not ok:
         return res
-    # run coqc on the props file itself to capture Print Assumptions
-    r = sh(f"timeout 600 coqc -q -Q . BaoV Props/{pid}.v", cwd=COQ, check=False, timeout=700)
-    if r.returncode != 0:
-        res["problems"].append("coqc Props/%s.v failed:\n%s" % (pid, r.stdout[-3000:]))
-        return res
+    # run coqc on the props file itself to capture Print Assumptions (its output is a function of the Coq sources
+    # only: it is kept under build/pa_cache keyed by a hash of every .v file of the development)
+    key = sources_hash()
+    cdir = os.path.join(BUILD, "pa_cache")
+    cfile = os.path.join(cdir, f"{pid}-{key}.txt")
+    if os.path.exists(cfile):
+        out_text = open(cfile).read()
+    else:
+        tmpd = os.path.join(cdir, "tmp_" + pid)
+        os.makedirs(tmpd, exist_ok=True)
+        r = sh(f"timeout 900 coqc -q -Q . BaoV -o {os.path.join(tmpd, pid + '.vo')} Props/{pid}.v", cwd=COQ, check=False, timeout=1000)
+        if r.returncode != 0:
+            res["problems"].append("coqc Props/%s.v failed:\n%s" % (pid, r.stdout[-3000:]))
+            return res
+        out_text = r.stdout
+        for f in os.listdir(cdir):
+            if f.startswith(pid + "-"):
+                try:
+                    os.remove(os.path.join(cdir, f))
+                except OSError:
+                    pass
+        with open(cfile, "w") as f:
+            f.write(out_text)
+
+    class _R:
+        pass
+    r = _R()
+    r.stdout = out_text
     # output: for each Print Assumptions either "Closed under the global context" or "Axioms:\n..."
     blocks = re.split(r"(?=Closed under the global context|Axioms:)", r.stdout)
     blocks = [b for b in blocks if b.startswith("Closed") or b.startswith("Axioms:")]
